@@ -45,6 +45,7 @@ def evalC (env : Env) : GCond → Option Bool
   | .lt a b => do let x ← evalE env a; let y ← evalE env b; pure (decide (x < y))
   | .ge a b => do let x ← evalE env a; let y ← evalE env b; pure (decide (x ≥ y))
   | .le a b => do let x ← evalE env a; let y ← evalE env b; pure (decide (x ≤ y))
+  | .not c => do let b ← evalC env c; pure (!b)
   | .unknown _ => none
 
 inductive Outcome where
